@@ -8,6 +8,8 @@ FAST = ["targets/audio_metrics.cpp"]
 def jobs(tier):
     q = tier == "quick"
     return [Job("c04_fidelity", "flt-asan", "random", workers=W, cases=40 if q else 400, maxtime=60 if q else 800, refs=("ref-flt",), fastsources=FAST, case_timeout=300),
+            # the fixed-point build of the tree against the frozen fixed-point codec (relative clauses only; the class floors are float-build figures)
+            Job("c04_fidelity", "fix-asan", "random", workers=W, cases=24 if q else 300, maxtime=60 if q else 600, refs=("ref-fix",), fastsources=FAST, case_timeout=300, seed_salt=13),
             # projection clause of C04 ("projection round-trips every input channel, identity and level kept"): the high-rate round trip of the C10 matrix target
             Job("c10_matrix", "flt-asan", "random", workers=8, cases=12 if q else 300, maxtime=60 if q else 400, refs=("ref-flt",), name="c10_matrix.flt-asan.random.c04")]
 
